@@ -224,7 +224,8 @@ func (w *world) doFetch(s *state, f fetch) (*state, string, string, string) {
 	rec, hasRec := pre.rec[f.K]
 	a := hasRec && rec[0] == f.N && rec[1] == f.E
 	b := (f.N == "T1" || f.N == "T2") && pre.tok[f.N] == "outstanding"
-	c := (f.V == 1 && f.W) || (f.V == 5 && s.hasR)
+	_, rRegistered := pre.rec["KR"]
+	c := (f.V == 1 && f.W) || (f.V == 5 && rRegistered)
 	authorized := a || b || c
 	creds := err == nil && harness.HasCreds(resp)
 	why := fmt.Sprintf("request %s (%s) on state {%s}: a=%v b=%v c=%v", f.label(), variantNames[f.V], w.keyOf(s), a, b, c)
@@ -414,6 +415,7 @@ func (w *world) explore(c *engine.Ctx, r *engine.Report, hasR bool) {
 	for _, k := range m.fetchKeys {
 		opLabels = append(opLabels, "rm:"+k)
 	}
+	opLabels = append(opLabels, "rm:KR") // the operator removes the re-wrapping node
 	opLabels = append(opLabels, "age")
 	var fetches []fetch
 	for _, k := range m.fetchKeys {
@@ -542,7 +544,7 @@ func init() {
 	engine.Register(&engine.CheckDef{
 		ID:    "C01",
 		Level: "model_checking",
-		Rule: "BFS over operator actions {authorize(K,E,N), create token, remove node, age past the token lifetime} and every well-signed fetch request from {K1,K2,K3}x{E1,E2}x{N1,N2,T1,T2,forged token,garbage}x{8 wrapped / re-wrapped variants}x{registration wrapper configured or not} (quick: reduced menus, depth 3; thorough: full menus, depth 4 - the full-menu fixpoint has > 70000 states x 576 fetch shapes and does not finish in the thorough budget), from two initial states (re-wrapping node R registered or not); state key = per key (nonce id, encryption key id) of its record, per token status, all record ids; " +
+		Rule: "BFS over operator actions {authorize(K,E,N), create token, remove node (including the re-wrapping node), age past the token lifetime} and every well-signed fetch request from {K1,K2,K3}x{E1,E2}x{N1,N2,T1,T2,forged token,garbage}x{8 wrapped / re-wrapped variants}x{registration wrapper configured or not} (quick: reduced menus, depth 3; thorough: full menus, depth 4 - the full-menu fixpoint has > 70000 states x 576 fetch shapes and does not finish in the thorough budget), from two initial states (re-wrapping node R registered or not); state key = per key (nonce id, encryption key id) of its record, per token status, all record ids; " +
 			"states/transitions are counted by the search; distinct_nontrivial = distinct (oracle branch, request class) pairs observed",
 		Assumptions: []string{"a 'forged' request is one assembled from other pool members; signature forgery is outside the model", "the canonical key drops the server encryption key, certificate bundles and state of a record: no transition or oracle of this check reads them"},
 		Shards:      func(c *engine.Ctx) int { return 2 },
